@@ -34,8 +34,41 @@ RG = 'src/mbi/region_graph.py'
 FG = 'src/mbi/factor_graph.py'
 
 
+def check_total_stored(ctx):
+    """the oracle normalises to self.total: the constructor must store the caller's total as it is.  A `total=None` default meaning
+    "unknown" has to be tested by comparison with None - truthiness also replaces the legal total 0 (a model of no records)."""
+    from .C15 import none_tests_of
+    for rel, cls in ((RG, 'RegionGraph'), (FG, 'FactorGraph')):
+        init = ctx.repo.nfunc(rel, cls + '.__init__')
+        ctx.analysed(init)
+        if 'total' not in init.params:
+            raise AnalysisError('%s.__init__ lost its total parameter' % cls)
+        none_tests_of(ctx, [init], what='the legal total 0')
+        stores = [s_ for s_ in ast.walk(init.node) if isinstance(s_, ast.Assign) and any(U(t_) == 'self.total' for t_ in s_.targets)]
+        if not stores:
+            raise AnalysisError('%s.__init__: store of self.total not found' % cls)
+        for s_ in stores:
+            v = s_.value
+            t = U(v).replace(' ', '')
+            d = init.defaults().get('total')
+            dflt = U(d) if d is not None else None
+            plain = t == 'total'
+            cond = isinstance(v, ast.IfExp) and U(v.test).replace(' ', '') in ('totalisNone', 'totalisnotNone') and \
+                'total' in (U(v.body), U(v.orelse)) and dflt == 'None'
+            par = getattr(s_, '_parent', None)
+            if isinstance(par, ast.If) and dflt == 'None' and isinstance(v, ast.Constant) and isinstance(v.value, (int, float)) and \
+                    ((U(par.test).replace(' ', '') == 'totalisNone' and s_ in par.body) or
+                     (U(par.test).replace(' ', '') == 'totalisnotNone' and s_ in par.orelse)):
+                cond = True          # the default, on the path where no total was given
+            if not plain and not cond and not (isinstance(v, ast.BoolOp) and any(U(x) == 'total' for x in v.values)):
+                raise AnalysisError('%s.__init__: `%s` is in no recognised form' % (cls, U(s_)[:70]))
+            ctx.ob('total-stored', init, s_, plain or cond,
+                   'the total the oracle normalises to is the caller\'s, stored as it is (or a default when it is None); stores `%s`' % U(v)[:60])
+
+
 def run(ctx):
     repo = ctx.repo
+    check_total_stored(ctx)
     ctx.explanation = (
         'Log-space typestate (E3): additive normal forms of every exp operand in the two non-convex oracles; a returned '
         'table must be exp(b + log(self.total) - logsumexp(b)). Exhaustive over all paths of the three functions.')
